@@ -2142,7 +2142,7 @@ class Emit:
 
 
 # ----------------------------------------------------------------------------- driver
-GROUP_IMPORTS = {"KQuant": ["Fpdec.Gen.KDecOps", "Fpdec.Gen.KIntOps", "Fpdec.Model.Decimal"], "KNumTraits": ["Fpdec.Gen.KCmp", "Fpdec.Gen.KAddSub", "Fpdec.Gen.KDecUnops", "Fpdec.Gen.KIntConv", "Fpdec.Gen.KFromStr", "Fpdec.Model.Decimal"], "KMisc": ["Fpdec.Gen.KCmp", "Fpdec.Gen.KFromStr", "Fpdec.Gen.KIntoFloat", "Fpdec.Model.Float"], "KTls": [], "KFormat": ["Fpdec.Gen.KDivRounded", "Fpdec.Gen.Consts", "Fpdec.Model.Format"], "KParse": ["Fpdec.Gen.KSwar", "Fpdec.Gen.Consts", "Fpdec.Model.Parser"], "KMagn": ["Fpdec.Gen.KLog", "Fpdec.Gen.Consts", "Fpdec.Model.Decimal"], "KRatio": ["Fpdec.Gen.KPow", "Fpdec.Model.Decimal"], "KRkyv": ["Fpdec.Gen.KPow", "Fpdec.Model.Decimal"], "KHash": ["Fpdec.Gen.KRatio", "Fpdec.Model.Ratio"], "KPow": ["Fpdec.Gen.Consts"], "KDivRounded": ["Fpdec.Gen.KRound", "Fpdec.Gen.KPow", "Fpdec.Model.Core"],
+GROUP_IMPORTS = {"KQuant": ["Fpdec.Gen.KDecOps", "Fpdec.Gen.KIntOps", "Fpdec.Model.Decimal"], "KNumTraits": ["Fpdec.Gen.KCmp", "Fpdec.Gen.KAddSub", "Fpdec.Gen.KDecUnops", "Fpdec.Gen.KIntConv", "Fpdec.Gen.KFromStr", "Fpdec.Model.Decimal"], "KMisc": ["Fpdec.Gen.KCmp", "Fpdec.Gen.KFromStr", "Fpdec.Gen.KIntoFloat", "Fpdec.Model.Float"], "KTls": [], "KFormat": ["Fpdec.Gen.KDivRounded", "Fpdec.Gen.Consts", "Fpdec.Model.Format"], "KParse": ["Fpdec.Gen.KSwar", "Fpdec.Gen.Consts", "Fpdec.Model.Parser"], "KMagn": ["Fpdec.Gen.KLog", "Fpdec.Gen.Consts", "Fpdec.Model.Decimal"], "KRatio": ["Fpdec.Gen.KPow", "Fpdec.Model.Decimal"], "KRkyv": ["Fpdec.Gen.KPow", "Fpdec.Model.Decimal"], "KHash": ["Fpdec.Gen.KRatio", "Fpdec.Model.Ratio"], "KForward2": ["Fpdec.Gen.KIntOps", "Fpdec.Gen.KCmp", "Fpdec.Model.Decimal"], "KPow": ["Fpdec.Gen.Consts"], "KDivRounded": ["Fpdec.Gen.KRound", "Fpdec.Gen.KPow", "Fpdec.Model.Core"],
                  "KDecDiv": ["Fpdec.Gen.KDivRounded"], "KDecMul": ["Fpdec.Gen.KDivRounded", "Fpdec.Model.Decimal"], "KNorm": [], "KFromStr": ["Fpdec.Gen.KPow", "Fpdec.Gen.Consts", "Fpdec.Model.Parser"], "KIntoFloat": ["Fpdec.Gen.Consts", "Fpdec.Model.Decimal"], "KIntOps": ["Fpdec.Gen.KDecDiv", "Fpdec.Gen.KNorm", "Fpdec.Gen.Consts", "Fpdec.Model.Decimal"], "KForward": ["Fpdec.Gen.KAddSub", "Fpdec.Gen.KDecOps"], "KIntConv": ["Fpdec.Gen.KPow", "Fpdec.Model.Decimal"], "KCmp": ["Fpdec.Gen.KPow", "Fpdec.Model.Decimal"], "KAddSub": ["Fpdec.Gen.KPow", "Fpdec.Model.Decimal"], "KDecUnops": ["Fpdec.Gen.KUnops", "Fpdec.Gen.KPow", "Fpdec.Model.Decimal"], "KDecOps": ["Fpdec.Gen.KDecDiv", "Fpdec.Gen.KDecMul", "Fpdec.Gen.KNorm", "Fpdec.Gen.Consts", "Fpdec.Model.Decimal"],
                  "KDecRound": ["Fpdec.Gen.KDivRounded", "Fpdec.Model.Decimal"],
                  "KFloat": ["Fpdec.Gen.KNorm", "Fpdec.Gen.Consts", "Fpdec.Model.Core", "Fpdec.Model.Decimal"], "KRem": ["Fpdec.Gen.KPow"], "KDecRem": ["Fpdec.Gen.KRem", "Fpdec.Model.Decimal"],
@@ -2401,6 +2401,27 @@ KERNELS = [
     # followed by `write_i128(b)` (std's impls for tuples and integers), the primitive `Rt.hashFeedPair`
     ("KHash", "src/lib.rs", "hash", "Decimal", {"as": "decimal_hash", "methods": {"as_integer_ratio": ("decimal_as_integer_ratio", ("tuple", ["i128", "i128"]))}, "rewrite": [
         (r"fn hash<H: Hasher>\(&self, state: &mut H\) \{\s*([^;]*?)\.hash\(state\);\s*\}", r"fn hash(&self) -> HashFeed { hash_feed_pair(\1) }")]}),
+    # the reference forms of `div_rounded` with an integer operand (hand-written forwarders inside the two macros of div_rounded.rs)
+    ("KForward2", "src/binops/div_rounded.rs", "div_rounded", "Decimal",
+     {"as": "refdec_divr_int", "macro": ("impl_div_rounded_decimal_and_int", 1, None, {"$t": "i64"}), "occ": 1, "ret": "Decimal"}),
+    ("KForward2", "src/binops/div_rounded.rs", "div_rounded", "Decimal",
+     {"as": "dec_divr_refint", "macro": ("impl_div_rounded_decimal_and_int", 1, None, {"$t": "i64"}), "occ": 2, "ret": "Decimal"}),
+    ("KForward2", "src/binops/div_rounded.rs", "div_rounded", "Decimal",
+     {"as": "refdec_divr_refint", "macro": ("impl_div_rounded_decimal_and_int", 1, None, {"$t": "i64"}), "occ": 3, "ret": "Decimal"}),
+    ("KForward2", "src/binops/div_rounded.rs", "div_rounded", "i64",
+     {"as": "refint_divr_dec", "macro": ("impl_div_rounded_decimal_and_int", 1, None, {"$t": "i64"}), "occ": 5, "ret": "Decimal"}),
+    ("KForward2", "src/binops/div_rounded.rs", "div_rounded", "i64",
+     {"as": "int_divr_refdec", "macro": ("impl_div_rounded_decimal_and_int", 1, None, {"$t": "i64"}), "occ": 6, "ret": "Decimal"}),
+    ("KForward2", "src/binops/div_rounded.rs", "div_rounded", "i64",
+     {"as": "refint_divr_refdec", "macro": ("impl_div_rounded_decimal_and_int", 1, None, {"$t": "i64"}), "occ": 7, "ret": "Decimal"}),
+    ("KForward2", "src/binops/div_rounded.rs", "div_rounded", "i64",
+     {"as": "refint_divr_int", "macro": ("impl_div_rounded_int_and_int", 1, None, {"$t": "i64"}), "occ": 1, "ret": "Decimal"}),
+    ("KForward2", "src/binops/div_rounded.rs", "div_rounded", "i64",
+     {"as": "int_divr_refint", "macro": ("impl_div_rounded_int_and_int", 1, None, {"$t": "i64"}), "occ": 2, "ret": "Decimal"}),
+    ("KForward2", "src/binops/div_rounded.rs", "div_rounded", "i64",
+     {"as": "refint_divr_refint", "macro": ("impl_div_rounded_int_and_int", 1, None, {"$t": "i64"}), "occ": 3, "ret": "Decimal"}),
+    # `int == Decimal` forwards to `Decimal == int` with the operands exchanged
+    ("KForward2", "src/binops/cmp.rs", "eq", "i64", {"as": "sint_eq_decimal", "macro": ("impl_int_eq_decimal", 1, None, {"$t": "i64"})}),
 ]
 
 # functions that generated code may call but that are modelled by hand: params, return type, Lean head (with its fixed arguments)
@@ -2437,6 +2458,7 @@ TRAIT_CALLS = {
     ("Mul", "mul"): {("d", "d"): "decimal_mul", ("d", "i"): "decimal_mul_int", ("i", "d"): "int_mul_decimal"},
     ("Div", "div"): {("d", "d"): "decimal_div"},
     ("Rem", "rem"): {("d", "d"): "decimal_rem"},
+    ("PartialEq", "eq"): {("d", "d"): "decimal_eq", ("d", "i"): "decimal_eq_sint"},
     ("MulRounded", "mul_rounded"): {("d", "d"): "decimal_mul_rounded"},
     ("DivRounded", "div_rounded"): {("d", "d"): "decimal_div_rounded", ("d", "i"): "decimal_div_rounded_int",
                                     ("i", "d"): "int_div_rounded_decimal", ("i", "i"): "int_div_rounded_int"},
